@@ -31,9 +31,21 @@ def units(ctx):
         for d in dens:
             yield (n, d)
     yield from hist.hist_units()
+    yield ("long", 0)
 
 
 def gen_cases(unit, ctx):
+    if unit[0] == "long":
+        for n, d in ((4, 4), (12, 8), (7, 8), (3, 2), (9, 16)):
+            cap = 96 * n // d
+            for k in (8, 24):
+                step = max(cap // k, 1)
+                ns = [[step * i, max(step - 1, 1), ctx["p"] + i % 5, i % 3, 10 + i] for i in range(k) if step * i + max(step - 1, 1) <= cap]
+                for dur in (cap - 1, cap, cap + 1):
+                    for sc in ("none", "m0", "c1", "e0"):
+                        for build in ("abs", "rel"):
+                            yield {"n": n, "d": d, "dur": dur, "notes": [x for x in ns if x[0] + x[1] <= dur], "sig": sc, "key": "Eb", "build": build}
+        return
     if unit[0] == "hist":
         for h in hist.hist_of_unit(unit):
             for n, d in ((4, 4), (7, 8), (12, 8), (3, 2), (5, 16), (2, 4), (5, 8), (7, 16), (5, 4)):
